@@ -234,6 +234,7 @@ func (z *Zipper) propagate() {
 const MaxCandidates = 100
 
 func (z *Zipper) matchUsers(usersOld, usersNew []ssa.Instruction) {
+	verifCount("matchUsers", len(usersOld), len(usersNew))
 	newByOp := make(map[string][]ssa.Instruction)
 	for _, u := range usersNew {
 		if _, mapped := z.revInstrMap[u]; mapped {
@@ -279,6 +280,7 @@ func (z *Zipper) matchUsers(usersOld, usersNew []ssa.Instruction) {
 }
 
 func (z *Zipper) areEquivalent(a, b ssa.Instruction) bool {
+	verifCount("compare", 1, 0)
 	if reflect.TypeOf(a) != reflect.TypeOf(b) {
 		return false
 	}
